@@ -1082,7 +1082,7 @@ def run_c20(rep, rng, tier):
             # to the importing file, wherever the directory entry leads
             # (a linked *file* that itself imports modules is left out: whether its imports are looked up next to the link or
             # next to the file it points to is not something the property fixes)
-            tops = sorted({rel.split("/")[0] for rel in mods if "/" in rel or "mod " not in files[rel]})
+            tops = sorted({rel.split("/")[0] for rel in mods if "/" in rel or not any(dc["k"] == "mod" for dc in mods[rel].decls)})
             if not tops:
                 tops = [None]
             x = rng.choice(tops)
